@@ -61,6 +61,10 @@ class Check(object):
 
     def finish(self, replay_path=None):
         os.makedirs(self._outdir, exist_ok=True)
+        if replay_path is None:
+            for f in os.listdir(self._outdir):          # replay files of earlier runs of this tier/seed
+                if f.startswith("%s_%s_" % (self.tier, self.seed)):
+                    os.unlink(os.path.join(self._outdir, f))
         if replay_path is not None:
             for d, n in sorted(self.known.items()):
                 print("KNOWN-FINDING: property=%s %s" % (self.pid, d))
